@@ -227,6 +227,8 @@ class Ctx:
         validation resumes at the next Reset so that the rest of the trace is still examined."""
         lines = open(trace).read().splitlines()
         lines = [x for x in lines if x.strip()]
+        import uuid
+        tag = uuid.uuid4().hex[:10]
         rejects = []
         start = 0
         part = 0
@@ -236,7 +238,7 @@ class Ctx:
         rejected_exec = 0
         while start < len(lines):
             sub = lines[start:]
-            f = os.path.join(self.work, "part-%d-%d.ndjson" % (os.getpid(), part))
+            f = os.path.join(self.work, "part-%s-%d.ndjson" % (tag, part))
             part += 1
             open(f, "w").write("\n".join(sub) + "\n")
             e = {"TRACE": f}
@@ -271,7 +273,7 @@ class Ctx:
             while t < len(lines) and '"e":"Reset"' not in lines[t]:
                 t += 1
             ex = lines[s:t]
-            rp = os.path.join(self.replays, "reject-%s-%d-%d.ndjson" % (os.path.basename(module)[:-4], int(self.t0), len(rejects)))
+            rp = os.path.join(self.replays, "reject-%s-%d-%s-%d.ndjson" % (os.path.basename(module)[:-4], int(self.t0), tag, len(rejects)))
             open(rp, "w").write("\n".join(ex) + "\n")
             rejects.append({"line": bad + 1, "event": lines[bad] if bad < len(lines) else "<end>", "exec": ex, "path": rp,
                             "offset_in_exec": bad - s})
